@@ -37,7 +37,10 @@ type GCA struct {
 	FailAt   int      `json:"fail_at"` // signer call index that fails/panics (mode err/panic); -1: never
 	// SkewSec: the CA's clock relative to the RA's (the validity window of what it returns starts that much later
 	// or earlier); StaggerSec: each further certificate of one reply starts that much later than the one before
-	SkewSec    int64 `json:"skew_sec,omitempty"`
+	SkewSec int64 `json:"skew_sec,omitempty"`
+	// DelaySec: the CA takes that long (on the simulated clock) before it answers or fails; the caller's context
+	// has a 60 s deadline, so 61 and more means that the deadline has passed when the answer arrives
+	DelaySec   int64 `json:"delay_sec,omitempty"`
 	StaggerSec int64 `json:"stagger_sec,omitempty"`
 }
 
@@ -61,6 +64,9 @@ type GRun struct {
 	StubAddFail int                  `json:"stub_add_fail,omitempty"` // 1-based index of the stub agent key whose AddCertsToAgent fails (0: none)
 	SSHVer      string               `json:"ssh_ver,omitempty"`       // client-declared SSH version ("" means 8.1)
 	AdvanceS    int64                `json:"advance_s"`
+	// DirChange: before this run the key directory entry of the login name is rotated (another key), deleted or
+	// registered; the path of the directory stays the same
+	DirChange string `json:"dir_change,omitempty"`
 	// further client claims carried by the command text: none of them may influence the signing request
 	Touch2SSH   bool   `json:"touch2ssh,omitempty"`
 	Firefighter bool   `json:"firefighter,omitempty"`
@@ -102,9 +108,13 @@ var agentBehaviours = []string{"honest", "otherkey", "otherdata", "replay", "emp
 var oddNames = []string{"alice", "bob", "we\"ird", "üser-ñ", "a b", "x{y}", "back\\slash", "tab\tname", "carol.smith", "root", "日本",
 	"lit\\u003cesc", "a<b>&c", "amp\\u0026x", "nl\\nname", "sep\u2028x", "per%cent%s", "x\\\\y", "q'uote",
 	"dot.", "UPPER", "a-rather-long-user-name-that-goes-on-and-on-0123456789"}
+
+// longDeclared are client-declared user names around and above 255 bytes (never login names: those are file names).
+var longDeclared = []string{strings.Repeat("u", 255), strings.Repeat("v", 256), strings.Repeat("w", 254) + "é", strings.Repeat("long-user-", 120)}
 var oddHosts = []string{"host.example.com", "h\"q", "ホスト", "a b c", "{\"x\":1}", "laptop-01", "x,y", "null",
 	"h\\u003e.example", "<host>&co", "a\\u0026b", "bs\\", "\\\"", "ctl\x01x", "tab\there", "h\\u0000x", "%s%d",
-	"host.example.com.", "HOST.Example.COM", " lead.example.com", "trail.example.com ", "a-very-long-cloud-instance-name-0123456789abcdef.eu-central-1.compute.internal.example.com", "[::1]", "host:22"}
+	"host.example.com.", "HOST.Example.COM", " lead.example.com", "trail.example.com ", "a-very-long-cloud-instance-name-0123456789abcdef.eu-central-1.compute.internal.example.com", "[::1]", "host:22",
+	strings.Repeat("h", 255) + ".example.com", strings.Repeat("ホ", 85) + "x", strings.Repeat("label.", 200) + "example.com"}
 var oddIPs = []string{"1.2.3.4", "10.0.0.254", "::1", "2001:db8::17", "192.168.223.229", "fe80::1"}
 var algoSpellings = map[int][]string{
 	0: {"default", "Default", "DEFAULT", "unknown", "0"},
@@ -176,6 +186,9 @@ func genRun(r *sim.Rng, p *GPlan, faulty bool, odd bool) GRun {
 		// client claims to be another registered user
 		run.ReqUser = pick(r, p.Users).Name
 	}
+	if r.Bool(0.06) {
+		run.ReqUser = pick(r, longDeclared)
+	}
 	if r.Bool(0.12) {
 		run.Policy = "NSOK"
 	}
@@ -234,6 +247,9 @@ func genRun(r *sim.Rng, p *GPlan, faulty bool, odd bool) GRun {
 	}
 	if r.Bool(0.1) {
 		run.CA.StaggerSec = int64(pick(r, []int{1, 3600}))
+	}
+	if r.Bool(0.12) {
+		run.CA.DelaySec = int64(pick(r, []int{1, 59, 61, 61, 3600}))
 	}
 	for i := 0; i < r.Range(0, 3); i++ {
 		run.CA.Comments = append(run.CA.Comments, pick(r, []string{"", "touch", "c2", "hello world", "paranoids.regular", "x-paranoids.regular-cert"}))
@@ -308,6 +324,9 @@ func genWorld(r *sim.Rng, odd bool, faultRate float64, maxRuns int) *GPlan {
 		if lookalike != "" && r.Bool(0.5) {
 			run.LogName = lookalike
 		}
+		if i > 0 && r.Bool(0.15) {
+			run.DirChange = pick(r, []string{"rotate", "rotate", "delete", "register"})
+		}
 		p.Runs = append(p.Runs, run)
 	}
 	return p
@@ -350,6 +369,11 @@ func shrinkG(raw json.RawMessage) []json.RawMessage {
 				q.Runs[i].Handlers = append(append([]string(nil), run.Handlers[:j]...), run.Handlers[j+1:]...)
 				emit(q)
 			}
+		}
+		if run.DirChange != "" {
+			q := clone()
+			q.Runs[i].DirChange = ""
+			emit(q)
 		}
 		if run.AdvanceS != 0 {
 			q := clone()
